@@ -18,7 +18,8 @@ Definition contains_with (neq : bytes -> bytes -> bool) (names : list bytes) (c 
 Definition contains_u : list bytes -> bytes -> bool := contains_with name_eqb.
 Definition contains_u_pinned : list bytes -> bytes -> bool := contains_with name_eqb_pinned.
 
-(* CollectionPaths.Split; None = the IRI is outside the model (userinfo, IP literal) *)
+(* CollectionPaths.Split; None = the IRI is outside the model (never answered since Model/UrlU.v parses userinfo and
+   IP literals too) *)
 Definition coll_split_with (cont : list bytes -> bytes -> bool) (names : list bytes) (i : bytes) : option (bytes * bytes) :=
   match (match i with [] => UErr | _ => url_parse_u i end) with
   | UOut => None
